@@ -150,7 +150,10 @@ def gen_e1(rng, cid):
     strat = rng.weighted([(0, 5), (1, 3), (2, 2)])
     if kind == 'when_all':
         k = 2 + rng.below(3)
-        lines = [f'case {cid} kind=when_all n={k} seed={seed} strat={strat}',
+        # a third of the when_all cases: self-deleting when_all operation state in guarded memory (destroyed inside the
+        # downstream completion call by whichever predecessor finishes last; a later touch by any thread faults)
+        life = ' life=1' if rng.below(3) == 0 else ''
+        lines = [f'case {cid} kind=when_all n={k} seed={seed} strat={strat}{life}',
                  'thread 0: start ;']
         for t in range(k):
             ch = rng.weighted([('value', 5), ('error', 3), ('stopped', 2)])
